@@ -247,6 +247,13 @@ Definition cc_step (c : configchange) (f : field) : option configchange :=
   end.
 Definition cc_decode := decode_with cc_step cc_zero.
 
+(* the optional byte fields are guarded in the Go code either by `x != nil`
+   (generated guard = true: Some [] is written as an empty field) or by
+   `len(x) > 0` (false: Some [] is not written); MarshalTo and Size() carry their
+   own guard, regenerated from the source for each of them *)
+Definition opt_present (guard_nil : bool) (o : option bytes) : option bytes :=
+  if guard_nil then o else match o with Some [] => None | _ => o end.
+
 (* ---------- SnapshotFile ---------- *)
 Record snapshotfile := mkSF {
   sf_filepath : bytes; sf_filesize : N; sf_fileid : N; sf_metadata : option bytes }.
@@ -257,11 +264,11 @@ Definition wf_sf (s : snapshotfile) : Prop :=
 Definition opt_field (n : N) (o : option bytes) : list field :=
   match o with Some b => [(n, FB b)] | None => [] end.
 Definition sf_to_fields (s : snapshotfile) : list field :=
-  [(2, FB (sf_filepath s)); (3, FV (sf_filesize s)); (4, FV (sf_fileid s))] ++ opt_field 5 (sf_metadata s).
+  [(2, FB (sf_filepath s)); (3, FV (sf_filesize s)); (4, FV (sf_fileid s))] ++ opt_field 5 (opt_present sf_metadata_guard_nil_marshal (sf_metadata s)).
 Definition sf_encode s := enc_fields (sf_to_fields s).
 Definition opt_size (o : option bytes) : N := match o with Some b => szb (nlen b) | None => 0 end.
 Definition sf_size (s : snapshotfile) : N :=
-  szb (nlen (sf_filepath s)) + szv (sf_filesize s) + szv (sf_fileid s) + opt_size (sf_metadata s).
+  szb (nlen (sf_filepath s)) + szv (sf_filesize s) + szv (sf_fileid s) + opt_size (opt_present sf_metadata_guard_nil_size (sf_metadata s)).
 Definition sf_step (s : snapshotfile) (f : field) : option snapshotfile :=
   match f with
   | (2, FB b) => Some (mkSF b (sf_filesize s) (sf_fileid s) (sf_metadata s))
@@ -286,14 +293,15 @@ Definition wf_sh (s : snapshotheader) : Prop :=
   int32 (sh_compression_type s).
 Definition sh_to_fields (s : snapshotheader) : list field :=
   [(1, FV (sh_session_size s)); (2, FV (sh_datastore_size s)); (3, FV (sh_unreliable_time s));
-   (4, FB (sh_git_version s))] ++ opt_field 5 (sh_header_checksum s) ++
-  opt_field 6 (sh_payload_checksum s) ++
+   (4, FB (sh_git_version s))] ++ opt_field 5 (opt_present sh_header_checksum_guard_nil_marshal (sh_header_checksum s)) ++
+  opt_field 6 (opt_present sh_payload_checksum_guard_nil_marshal (sh_payload_checksum s)) ++
   [(7, FV (enc_i32 (sh_checksum_type s))); (8, FV (sh_version s));
    (9, FV (enc_i32 (sh_compression_type s)))].
 Definition sh_encode s := enc_fields (sh_to_fields s).
 Definition sh_size (s : snapshotheader) : N :=
   szv (sh_session_size s) + szv (sh_datastore_size s) + szv (sh_unreliable_time s) +
-  szb (nlen (sh_git_version s)) + opt_size (sh_header_checksum s) + opt_size (sh_payload_checksum s) +
+  szb (nlen (sh_git_version s)) + opt_size (opt_present sh_header_checksum_guard_nil_size (sh_header_checksum s)) +
+  opt_size (opt_present sh_payload_checksum_guard_nil_size (sh_payload_checksum s)) +
   szv (enc_i32 (sh_checksum_type s)) + szv (sh_version s) + szv (enc_i32 (sh_compression_type s)).
 Definition sh_step (s : snapshotheader) (f : field) : option snapshotheader :=
   let '(mkSH a b c d e g h i j) := s in
@@ -523,7 +531,7 @@ Definition sn_zero := mkSN [] 0 0 0 mb_zero [] None false 0 0 false 0 false.
 Definition sn_size (s : snapshot) : N :=
   szb (nlen (sn_filepath s)) + szv (sn_filesize s) + szv (sn_index s) + szv (sn_term s) +
   szb (mb_size (sn_membership s)) + sum_map (fun f => szb (sf_size f)) (sn_files s) +
-  opt_size (sn_checksum s) + 2 + szv (sn_shard s) + szv (enc_i32 (sn_type s)) + 2 +
+  opt_size (opt_present sn_checksum_guard_nil_size (sn_checksum s)) + 2 + szv (sn_shard s) + szv (enc_i32 (sn_type s)) + 2 +
   szv (sn_ondisk s) + 2.
 Definition wf_sn (s : snapshot) : Prop :=
   nlen (sn_filepath s) < 2 ^ 32 /\ u64 (sn_filesize s) /\ u64 (sn_index s) /\ u64 (sn_term s) /\
@@ -532,7 +540,8 @@ Definition wf_sn (s : snapshot) : Prop :=
 Definition sn_to_fields (s : snapshot) : list field :=
   [(2, FB (sn_filepath s)); (3, FV (sn_filesize s)); (4, FV (sn_index s)); (5, FV (sn_term s));
    (6, FB (mb_encode (sn_membership s)))] ++
-  map (fun f => (7, FB (sf_encode f))) (sn_files s) ++ opt_field 8 (sn_checksum s) ++
+  map (fun f => (7, FB (sf_encode f))) (sn_files s) ++
+  opt_field 8 (opt_present sn_checksum_guard_nil_marshal (sn_checksum s)) ++
   [(9, FV (enc_bool (sn_dummy s))); (10, FV (sn_shard s)); (11, FV (enc_i32 (sn_type s)));
    (12, FV (enc_bool (sn_imported s))); (13, FV (sn_ondisk s)); (14, FV (enc_bool (sn_witness s)))].
 Definition sn_encode s := enc_fields (sn_to_fields s).
@@ -655,7 +664,7 @@ Definition wf_ck (c : chunk) : Prop :=
   mb_size (ck_membership c) < 2 ^ 63.
 Definition ck_to_fields (c : chunk) : list field :=
   [(1, FV (ck_shard c)); (2, FV (ck_replica c)); (3, FV (ck_from c)); (4, FV (ck_id c));
-   (5, FV (ck_size c)); (6, FV (ck_count c))] ++ opt_field 7 (ck_data c) ++
+   (5, FV (ck_size c)); (6, FV (ck_count c))] ++ opt_field 7 (opt_present ck_data_guard_nil_marshal (ck_data c)) ++
   [(8, FV (ck_index c)); (9, FV (ck_term c)); (10, FB (mb_encode (ck_membership c)));
    (12, FB (ck_filepath c)); (13, FV (ck_filesize c)); (14, FV (ck_deployment c));
    (15, FV (ck_filechunkid c)); (16, FV (ck_filechunkcount c));
@@ -664,7 +673,7 @@ Definition ck_to_fields (c : chunk) : list field :=
 Definition ck_encode c := enc_fields (ck_to_fields c).
 Definition ck_size_of (c : chunk) : N :=
   szv (ck_shard c) + szv (ck_replica c) + szv (ck_from c) + szv (ck_id c) + szv (ck_size c) +
-  szv (ck_count c) + opt_size (ck_data c) + szv (ck_index c) + szv (ck_term c) +
+  szv (ck_count c) + opt_size (opt_present ck_data_guard_nil_size (ck_data c)) + szv (ck_index c) + szv (ck_term c) +
   szb (mb_size (ck_membership c)) + szb (nlen (ck_filepath c)) + szv (ck_filesize c) +
   szv (ck_deployment c) + szv (ck_filechunkid c) + szv2 (ck_filechunkcount c) + 3 +
   szb2 (sf_size (ck_fileinfo c)) + szv2 (ck_binver c) + szv2 (ck_ondisk c) + 3.
